@@ -1,6 +1,9 @@
 package sym
 
-import "fmt"
+import (
+	"fmt"
+	"math"
+)
 
 // Large immutable look-up tables indexed by a symbolic value are abstracted as
 // uninterpreted functions; ground facts tbl(i) = T[i] are added lazily for the
@@ -15,6 +18,7 @@ type UFPtr struct {
 
 type ufTable struct {
 	name  string
+	hash  uint64
 	cells []Value
 	sort  Sort
 	apps  map[int]*Term // idx term ID -> idx term
@@ -23,29 +27,37 @@ type ufTable struct {
 
 func (e *Exec) ufTableFor(cells []Value) *ufTable {
 	key := &cells[0]
-	if t, ok := e.ufTables[key]; ok {
-		return t
-	}
 	if e.ufTables == nil {
-		e.ufTables = map[*Value]*ufTable{}
+		e.ufTables = map[*Value][]*ufTable{}
 	}
-	// the name must not depend on the order in which a path happens to touch the tables
+	// The name must not depend on the order in which a path happens to touch the tables
 	// (all paths of a worker share one solver process and its global declarations): it is
-	// derived from the element sort, the length and the contents
+	// derived from the element sort, the length and the contents. The contents are hashed
+	// at every load: a table that was written after an earlier load (e.g. two packages
+	// whose tables share a backing array) is a different function from then on, with its
+	// own snapshot of the cells, so "immutable after initialisation" is checked, not assumed.
 	h := uint64(14695981039346656037)
 	for _, c := range cells {
 		v := uint64(0)
 		if ct, ok := c.(*Term); ok {
 			v = ct.C
+			if ct.Sort.K == SFP {
+				v = math.Float64bits(ct.F)
+			}
 		}
 		for i := 0; i < 8; i++ {
 			h ^= (v >> (8 * uint(i))) & 0xff
 			h *= 1099511628211
 		}
 	}
+	for _, t := range e.ufTables[key] {
+		if t.hash == h && len(t.cells) == len(cells) {
+			return t
+		}
+	}
 	srt := cells[0].(*Term).Sort
-	t := &ufTable{name: fmt.Sprintf("tbl!%d!%d!%d!%x", srt.K, srt.W, len(cells), h), cells: cells, sort: cells[0].(*Term).Sort, apps: map[int]*Term{}, facts: map[uint64]bool{}}
-	e.ufTables[key] = t
+	t := &ufTable{name: fmt.Sprintf("tbl!%d!%d!%d!%x", srt.K, srt.W, len(cells), h), hash: h, cells: append([]Value(nil), cells...), sort: srt, apps: map[int]*Term{}, facts: map[uint64]bool{}}
+	e.ufTables[key] = append(e.ufTables[key], t)
 	e.ufOrder = append(e.ufOrder, t)
 	return t
 }
